@@ -185,6 +185,52 @@ func monC06(c *runCtx) {
 				})
 			}
 		}
+		// a change and its reversal on an index LOADED from the file (as every command does): the file must hold the entries
+		// last written after each step, also when they equal what was loaded
+		if (si/c.of)%3 == 1 {
+			holds := func(step string, want []string) bool {
+				raw, _ := os.ReadFile(filepath.Join(root, "index"))
+				dec, perr := gitfmt.ParseIndex(raw)
+				var got []string
+				if perr == nil {
+					for _, e := range dec.Entries {
+						got = append(got, e.Path)
+					}
+				}
+				c.oracle("C06.file-canonical")
+				if perr != nil || strings.Join(got, "\x00") != strings.Join(want, "\x00") {
+					c.fail("C06.file-canonical", "entries-differ-after-change-and-reversal", "reversal", "loaded %q; after %s the index file holds %q (err %v), the entries last written are %q", sorted, step, got, perr, want)
+					return false
+				}
+				return true
+			}
+			var ix2 *va.Index
+			var e1, e2, e3, e4 error
+			extra := "~extra entry"
+			if !c.guarded("C06.file-canonical", "reversal", "NewIndex/Update/DeleteEntry", func() {
+				if ix2, e1 = va.NewIndex(root); e1 != nil {
+					return
+				}
+				_, e2 = ix2.Update(root, id(77), []byte(extra))
+			}) && e1 == nil && e2 == nil {
+				c.class("C06.reversal|loaded-n" + fmt.Sprint(min(len(sorted), 4)))
+				with := append(append([]string{}, sorted...), extra)
+				sort.Strings(with)
+				if holds("Update(extra)", with) {
+					c.guarded("C06.file-canonical", "reversal", "DeleteEntry(extra)", func() { e3 = ix2.DeleteEntry(root, []byte(extra)) })
+					if e3 == nil && holds("Update(extra), DeleteEntry(extra)", sorted) && len(sorted) > 0 {
+						c.guarded("C06.file-canonical", "reversal", "DeleteEntry/Update", func() {
+							if e4 = ix2.DeleteEntry(root, []byte(sorted[0])); e4 == nil {
+								_, e4 = ix2.Update(root, id(0), []byte(sorted[0]))
+							}
+						})
+						if e4 == nil {
+							holds("DeleteEntry(first), Update(first)", sorted)
+						}
+					}
+				}
+			}
+		}
 		// delete the entries one by one in a shuffled order: after each deletion the file must decode to the rest
 		if si%4 == c.shard%4 {
 			rest := append([]string{}, sorted...)
